@@ -15,6 +15,7 @@ mutates the object a variable refers to, the last group only observes.
   ["cadd", [col,text], part]  ["cradd", part, [col,text]]  ["cjoin", [col,text], [part...]]  ["cfixed", [col,text], n]
   ["iadd", a, part]             v_a += part
   ["fmt", a, spec]  ["eq", a, part]  ["cindex", ch, i]  ["cslice", ch, lo, hi]  ["ceq", ch, part]  ["cfmt", ch, spec]
+                                (eq / ceq observe  x == p, p == x, x != p, p != x;  ceq: p a str or a chunk)
 part:  ["s", text] | ["c", col, text] | ["v", k] | ["l", [part...]] | ["t", [part...]]   (list / tuple)
 col :  a key of COLORS (chunks are made by ColorFmt(...)(text), the public way)
 """
@@ -61,7 +62,13 @@ RULE = ("random straight-line programs of 3-25 statements over CHText objects (s
         "format, ==, and the same on bare chunks; texts over {a,b,space,e-acute,CJK} of length 0-4 in 5 colours "
         "(2 of them colourless); indices/bounds in [-len-2, len+2] + None biased to chunk boundaries; widths "
         "around len; format specs from [[fill]align][width][s] plus a malformed stream; targeted families: "
-        "t += t / t += [t, x, t], split-and-reassemble followed by ==, one-character-at-a-time rebuilds. "
+        "t += t / t += [t, x, t], split-and-reassemble followed by ==, one-character-at-a-time rebuilds, "
+        "near-miss comparisons (family 'eqnear' and every random ==): a text of 1-4 runs, often starting/ending with "
+        "default-coloured characters or cut out of a longer text, against str / chunk / CHText operands that are the "
+        "same or nearly the same -- each run alone, prefixes/suffixes at run boundaries and elsewhere, one character "
+        "more/less/changed, white-space and case variants, the empty string, same text in other colours, the runs "
+        "split/recoloured/reordered/with one dropped, an extra (empty) chunk at either end, lists/tuples; "
+        "== and != are both observed in both operand orders. "
         "Non-trivial = distinct program in which some object has >= 2 chunks or an exception/alias occurred.")
 TRUSTED_BASE = [
     "gen/C08_Consts.v: four facts read from ak/color.py by harness/props/c08.py:gen_consts (ast, fail closed): "
@@ -69,7 +76,9 @@ TRUSTED_BASE = [
     "returns self when no resize is needed, the align characters of __format__",
     "Python semantics restated in coq/C08/PyStr.v: sequence indexing/slicing (None, negative, out of range), "
     "int(str) for ASCII digits/sign/underscore/white space, str.isdigit for ASCII; the meaning of a format spec "
-    "[[fill]align][width][s] for str (pad to width on the visible length) is the definition pad_spec in Lemmas",
+    "[[fill]align][width][s] for str (pad to width on the visible length) is the definition pad_spec in Lemmas; "
+    "x != y answered as the negation of __eq__ (Python's default __ne__, neither class defines its own) is "
+    "Model.sx_eq_obs, compared with the implementation's != on every generated comparison",
     "chunks are created through ColorFmt (suffix determined by prefix); the prefix/suffix strings are read from "
     "the implementation per run and passed to the model as literals",
 ]
@@ -401,6 +410,53 @@ def _spec(rng, n):
     return s
 
 
+PAIR_NAME = {}
+for _k, _v in DEFAULT_PAL.items():
+    PAIR_NAME.setdefault(tuple(_v), _k)
+
+
+def _runs(val):
+    """maximal runs of equally coloured characters: [[colour name, text], ...]"""
+    out = []
+    for c, pair in val:
+        if out and out[-1][0] == pair:
+            out[-1][1] += c
+        else:
+            out.append([pair, c])
+    return [[PAIR_NAME[pair], t] for pair, t in out]
+
+
+def _other_char(c):
+    return "b" if c == "a" else "a"
+
+
+def _near_texts(text, runs=None):
+    """strings that are `text` or nearly `text`: the parts a sloppy comparison might look at alone (first / last /
+    any run, prefixes and suffixes at run boundaries and elsewhere), one character more / less / changed, white
+    space and case variants, the empty string"""
+    n = len(text)
+    out = [text, "", text + "a", "a" + text, text + " ", " " + text, text.strip(), text.swapcase(), text * 2,
+           text[::-1], text[1:], text[:-1], text[:n // 2], text[n // 2:]]
+    pos = 0
+    for _, t in runs or []:
+        out += [t, text[:pos], text[pos:], text[:pos + len(t)], text[pos + len(t):]]
+        pos += len(t)
+    for i in {0, n // 2, n - 1} if n else ():
+        out.append(text[:i] + _other_char(text[i]) + text[i + 1:])
+    seen, uniq = set(), []
+    for t in out:
+        if t not in seen:
+            seen.add(t)
+            uniq.append(t)
+    return uniq
+
+
+def _near_cols(rng, runs):
+    """colours a near-miss chunk operand may have: those of the text's runs first"""
+    cols = [r[0] for r in runs[:1]] + [r[0] for r in runs[-1:]] + [r[0] for r in runs] + ["plain", "nc", "red"]
+    return cols + [_col(rng)]
+
+
 class _Gen:
     def __init__(self, rng):
         self.rng = rng
@@ -497,30 +553,101 @@ class _Gen:
         if k == "cslice":
             return self.emit(["cslice", ch] + [rng.choice([None, rng.randint(-m - 2, m + 2)]) for _ in range(2)])
         if k == "ceq":
-            r = rng.random()
-            other = ["s", ch[1]] if r < 0.4 else ["c", _col(rng), ch[1]] if r < 0.8 else ["c"] + _chunk(rng)
-            return self.emit(["ceq", ch, other])
+            return self.emit(["ceq", ch, self.ceq_operand(ch)])
         return self.emit(["cfmt", ch, _spec(rng, m)])
 
+    def ceq_operand(self, ch):
+        rng = self.rng
+        r = rng.random()
+        t = ch[1] if r < 0.45 else rng.choice(_near_texts(ch[1]))
+        r = rng.random()
+        if r < 0.4:
+            return ["s", t]
+        if r < 0.9:
+            return ["c", ch[0] if rng.random() < 0.5 else _col(rng), t]
+        return ["c"] + _chunk(rng)
+
     def eq_operand(self, a):
+        """an operand to compare v_a with: the same content (as str / chunk / other object) or a near miss of it"""
         rng = self.rng
         val = self.ref.vars[a]
         r = rng.random()
         text = "".join(c for c, _ in val)
-        cols = {c for _, c in val}
+        runs = _runs(val)
         if r < 0.3:
-            return ["s", text if rng.random() < 0.8 else text + "a"]
+            return ["s", text if rng.random() < 0.5 else rng.choice(_near_texts(text, runs))]
         if r < 0.55:
-            col = "plain"
-            if len(cols) == 1:
-                pair = next(iter(cols))
-                col = next(k for k, v in DEFAULT_PAL.items() if tuple(v) == pair)
+            col = runs[0][0] if len(runs) == 1 else "plain"
+            if rng.random() < 0.4:
+                return ["c", rng.choice(_near_cols(rng, runs)), rng.choice(_near_texts(text, runs))]
             return ["c", col if rng.random() < 0.8 else _col(rng), text]
+        if r < 0.75:
+            return ["v", self.near_var(a)]
+        if r < 0.78:
+            # a list / tuple is never equal to a text, whatever it holds (as for str)
+            inner = rng.choice([[["s", text]], [["v", a]], [["c", r0[0], r0[1]] for r0 in runs], []])
+            return [rng.choice("lt"), inner]
         # a variable with the same content if there is one
         same = [j for j, v in enumerate(self.ref.vars) if v == val and j != a]
         if same and rng.random() < 0.7:
             return ["v", rng.choice(same)]
         return ["v", rng.randrange(self.nv())]
+
+    NEAR_VARS = ["prefix", "suffix", "recolour", "retext", "plainall", "extra", "rextra", "dropfirst", "droplast",
+                 "split", "swap", "make", "copy", "inner"]
+
+    def near_var(self, a, how=None):
+        """emit statements building an object that shows the same as v_a assembled in another way, or nearly the
+        same (a prefix / suffix / all runs but one, one run in another colour or with another character, an
+        extra chunk at either end, the runs in another order); returns its variable"""
+        rng = self.rng
+        val = self.ref.vars[a]
+        n = len(val)
+        runs = _runs(val)
+        how = how or rng.choice(self.NEAR_VARS)
+        if how == "prefix":
+            return self.emit(["slice", a, None, rng.choice(_boundaries(val) + [rng.randint(0, n)])])
+        if how == "suffix":
+            return self.emit(["slice", a, rng.choice(_boundaries(val) + [rng.randint(0, n)]), None])
+        if how == "inner":
+            bs = _boundaries(val)
+            lo, hi = sorted([rng.choice(bs), rng.choice(bs)])
+            return self.emit(["slice", a, lo, hi if rng.random() < 0.5 else hi - n if hi < n else None])
+        if how == "plainall":
+            return self.emit(["new", [["s", "".join(c for c, _ in val)]]])
+        if how == "extra":
+            return self.emit(["add", a, ["c", rng.choice(_near_cols(rng, runs)), rng.choice(["", "", "a", " "])]])
+        if how == "rextra":
+            return self.emit(["radd", ["c", rng.choice(_near_cols(rng, runs)), rng.choice(["", "", "a", " "])], a])
+        if how == "copy":
+            return self.emit(["new", [["v", a]]])
+        rs = [list(x) for x in runs]
+        if how == "recolour" and rs:
+            k = rng.randrange(len(rs))
+            rs[k][0] = rng.choice([c for c in COLOR_NAMES if c != rs[k][0]])
+        elif how == "retext" and rs:
+            k = rng.randrange(len(rs))
+            t = rs[k][1]
+            i = rng.randrange(len(t))
+            rs[k][1] = rng.choice([t[:i] + _other_char(t[i]) + t[i + 1:], t + t[-1], t[1:], t.swapcase()])
+        elif how == "dropfirst":
+            rs = rs[1:]
+        elif how == "droplast":
+            rs = rs[:-1]
+        elif how == "swap":
+            rs = rs[::-1]
+        elif how == "split":
+            out = []
+            for c, t in rs:
+                i = rng.randint(0, len(t))
+                out += [[c, t[:i]], [c, t[i:]]]
+            rs = out
+        elif how == "make":
+            return self.emit(["make", rs])
+        parts = [["s", t] if c == "plain" and rng.random() < 0.5 else ["c", c, t] for c, t in rs]
+        if rng.random() < 0.3:
+            parts = [[rng.choice("lt"), parts]]
+        return self.emit(["new", parts])
 
     # ---- targeted families
     def resplit(self, a):
@@ -612,6 +739,79 @@ def _slice_program(rng):
     return {"tag": "slice", "prog": g.prog}
 
 
+def _eq_program(rng):
+    """one text (1-4 runs, usually starting or ending with default-coloured characters, or taken out of a longer
+    text) compared with the whole menu of near misses: as str, as chunk, as another CHText"""
+    g = _Gen(rng)
+    style = rng.randrange(6)
+    nruns = rng.choice([1, 2, 2, 3, 3, 4])
+    cols = []
+    for i in range(nruns):
+        if style == 0:
+            c = "plain" if i % 2 == 0 else rng.choice(["red", "green", "bb"])       # label + coloured value ...
+        elif style == 1:
+            c = "plain" if i % 2 == 1 else rng.choice(["red", "green", "bb"])       # coloured, then plain ...
+        elif style == 2:
+            c = rng.choice(["plain", "nc"])                                         # shows default colour only
+        elif style == 3:
+            c = rng.choice(["red", "green", "bb"])
+        else:
+            c = _col(rng)
+        cols.append(c)
+    parts = [["s", t] if c == "plain" and rng.random() < 0.6 else ["c", c, t]
+             for c, t in ((c, _text(rng, 1, 3)) for c in cols)]
+    if style == 5 and rng.random() < 0.5:
+        parts = []
+    way = rng.randrange(5)
+    if way == 0 or not parts:
+        a = g.emit(["new", parts])
+    elif way == 1:
+        a = g.emit(["new", parts[:1]])
+        for p in parts[1:]:
+            a = g.emit(["add", a, p])
+    elif way == 2:
+        a = g.emit(["new", parts[:1]])
+        for p in parts[1:]:
+            g.emit(["iadd", a, p])
+    elif way == 3:
+        a = g.emit(["new", parts[-1:]])
+        for p in reversed(parts[:-1]):
+            a = g.emit(["radd", p, a])
+    else:
+        e = g.emit(["new", []])
+        a = g.emit(["join", e, parts])
+    if rng.random() < 0.3:
+        # a piece of the text: the comparison must not see what was cut off
+        b = g.near_var(a, rng.choice(["prefix", "suffix", "inner"]))
+        if g.ref.vars[b] or rng.random() < 0.2:
+            a = b
+    val = g.ref.vars[a]
+    text = "".join(c for c, _ in val)
+    runs = _runs(val)
+    strs = _near_texts(text, runs)
+    # always: the text itself, '', the first and the last run alone; then a sample of the other near misses
+    must = [text, ""] + [r[1] for r in runs[:1] + runs[-1:]]
+    must = [t for k, t in enumerate(must) if t not in must[:k]]
+    rest = [t for t in strs if t not in must]
+    for t in must + rng.sample(rest, min(len(rest), 8)):
+        g.emit(["eq", a, ["s", t]])
+    for r in runs[:1] + runs[-1:]:
+        g.emit(["eq", a, ["c", r[0], r[1]]])                 # the first / last run as a chunk
+    ncols = _near_cols(rng, runs)
+    for _ in range(5):
+        g.emit(["eq", a, ["c", rng.choice(ncols), text if rng.random() < 0.4 else rng.choice(strs)]])
+    for how in rng.sample(_Gen.NEAR_VARS, 6):
+        b = g.near_var(a, how)
+        g.emit(["eq", a, ["v", b]])
+    for r in rng.sample(runs, min(len(runs), 2)):
+        ch = [r[0], r[1]]
+        near = _near_texts(r[1])
+        for t in rng.sample(near, 2):
+            g.emit(["ceq", [rng.choice([r[0], "plain", "nc"]), r[1]], ["s", t]])
+            g.emit(["ceq", ch, ["c", rng.choice([r[0], r[0], "plain", _col(rng)]), t]])
+    return {"tag": "eqnear", "prog": g.prog}
+
+
 FIXED_CASES = [
     {"tag": "fixed", "prog": [["new", [["c", "red", "ab"], ["s", "cd"]]], ["iadd", 0, ["v", 0]], ["add", 0, ["s", ""]],
                               ["eq", 0, ["v", 1]]]},
@@ -650,6 +850,8 @@ def gen_cases(rng, tier):
         cases.append(_format_program(rng))
     for _ in range(4000 if big else 300):
         cases.append(_slice_program(rng))
+    for _ in range(2500 if big else 200):
+        cases.append(_eq_program(rng))
     return cases
 
 
@@ -663,6 +865,8 @@ def search_cases(rng, tier):
         cases.append(_slice_program(rng))
     for _ in range(400):
         cases.append(_format_program(rng))
+    for _ in range(600):
+        cases.append(_eq_program(rng))
     return cases
 
 
@@ -790,11 +994,9 @@ def impl_run(case):
         elif k in ("eq", "ceq"):
             a = vs[st[1]] if k == "eq" else mkchunk(st[1])
             b = mkpart(st[2])
-            r1 = a == b
-            r2 = b == a
-            n1 = a != b
-            sobs.append({"r": [bool(r1) if isinstance(r1, bool) else 2, bool(r2) if isinstance(r2, bool) else 2],
-                         "ne": bool(n1)})
+            res = [a == b, b == a, a != b, b != a]
+            res = [int(x) if isinstance(x, bool) else 2 for x in res]
+            sobs.append({"r": res[:2], "ne": res[2:]})
         elif k in ("cindex", "cslice"):
             c = mkchunk(st[1])
             try:
@@ -936,7 +1138,7 @@ def full_obs(case, obs):
         elif k in ("fmt", "cfmt"):
             so.append(SX.ok(SX.s(r[1])) if r[0] == "ok" else SX.err(r[1]))
         elif k in ("eq", "ceq"):
-            so.append([int(r[0]), int(r[1])])
+            so.append([int(r[0]), int(r[1]), int(o["ne"][0]), int(o["ne"][1])])
         else:
             so.append(SX.ok(_sx_chunks([r[1]])[0]) if r[0] == "ok" else SX.err(r[1]))
     dump = [[d["scrlen"], _sx_chunks(d["chunks"]), SX.s(d["str"]), SX.s(d["plain"])] for d in obs["dump"]]
@@ -1066,11 +1268,13 @@ def oracle(case, obs):
                 want = all(c == PLAIN for _, c in a) and _show(a) == p[1]
             elif p[0] == "c":
                 want = a == ref.chunk(p[1:])
+            elif p[0] in ("l", "t"):
+                want = False                      # 'abc' == ['abc'] is False
             else:
                 b = ref.vars[p[1]]
                 want = a == b
                 dirty = dirty or id(b) in tainted
-            if r != [want, want] or o["ne"] != (not want):
+            if r != [want, want] or o["ne"] != [not want, not want]:
                 if dirty:
                     if STRICT_MAKE:
                         bad("make-empty-chunk", f"stmt {i} {st}: == gives {r}, expected {want}; an operand came from CHText.make with an empty chunk")
@@ -1089,8 +1293,8 @@ def oracle(case, obs):
                 if not a and not b:
                     continue
                 want = a == b
-            if r != [want, want]:
-                bad("equality", f"stmt {i} {st}: chunk == gives {r}, expected {want}")
+            if r != [want, want] or o["ne"] != [not want, not want]:
+                bad("equality", f"stmt {i} {st}: chunk == gives {r} (!= gives {o['ne']}), expected {want}")
         elif k in ("cindex", "cslice"):
             a = ref.chunk(st[1])
             try:
@@ -1159,9 +1363,9 @@ TECHNIQUE = ("Coq proofs (structural induction over chunk lists, operand trees a
 LEVEL_TEXT = ("Full (about the model, unbounded): program_refines + inv_reachable -- for EVERY program over the modelled operations "
               "(constructor from nested lists/tuples, +, reflected +, += incl. t += t and t += [t, x, t], join, [i], [a:b] with "
               "None/negative/out-of-range bounds, fixed_len incl. its aliasing, make/resize without truncation, bare-chunk "
-              "operations, == against CHText/chunk/str in both orders) the heap of CHText objects is canonical and equals, "
+              "operations, == and != against CHText/chunk/str in both orders) the heap of CHText objects is canonical and equals, "
               "object by object, the heap of the same program on plain lists of coloured characters with Python's list "
-              "operations, and every observation (result identity, IndexError, == results) coincides; eq_canonical, "
+              "operations, and every observation (result identity, IndexError, == and != results) coincides; eq_canonical, "
               "canonical_unique, eq_str, eq_chunk, len_visible, plain_text_visible, str_of_default_coloured; format_visible for "
               "ALL specs [[fill]align][width]['s'] without leading 0 (the odd hand parser is proved to decode the grammar); "
               "iadd_self_terminates (rests on the regenerated fact that __iadd__ copies the list).  "
